@@ -477,7 +477,10 @@ def cfi_shapes(tier):
                   # a patch that ENDS in a label followed by a directive: the directive describes what follows the patch
                   [ins("b1", 1, "cfiraw:mov ecx, 1;.cfi_adjust_cfa_offset 8;jmp s0;.Lr:;.cfi_adjust_cfa_offset -8")],
                   [ins("b1", 1, "cfiraw:mov ecx, 1;.cfi_adjust_cfa_offset 8;mov ecx, 2;.Lr:;.cfi_adjust_cfa_offset -8")],
-                  [ins("b1", 3, "cfiraw:mov ecx, 1;.cfi_adjust_cfa_offset 8;mov ecx, 2;.Lr:;.cfi_adjust_cfa_offset -8")]]
+                  [ins("b1", 3, "cfiraw:mov ecx, 1;.cfi_adjust_cfa_offset 8;mov ecx, 2;.Lr:;.cfi_adjust_cfa_offset -8")],
+                  # a directive between a block-ending instruction and the label that ends the patch
+                  [ins("b1", 1, "cfiraw:.cfi_remember_state;mov ecx, 1;.cfi_adjust_cfa_offset 8;jmp s0;.cfi_restore_state;.Lr:")],
+                  [ins("b1", 1, "cfiraw:mov ecx, 1;.cfi_adjust_cfa_offset 8;jmp s0;.cfi_adjust_cfa_offset -8;.Lr:")]]
     for kind in ("one", "two", "same-offset"):
         for mods in text_mods:
             spec = cfi_layout(kind)
